@@ -173,6 +173,11 @@ def run(ctx):
             ctx.finding("accepts-unclosed-bracket" if r[0] == "ok" else "escape:%s@%s" % (r[1], r[2]),
                         {"selfies": y, "table": j.table}, repr(r)[:300])
 
+    if ctx.shard % 4 == 2:
+        # the rest of this shard runs in a process that has already decoded very many distinct symbols
+        for k in range(140000):
+            call_guard(lambda: sf.decoder("[%dC][O]" % k), expected=(sf.DecoderError,))
+        ctx.count("soak_distinct_symbols", 140000)
     # G2 x G4
     for ti in range(25 if quick else 300):
         t = tablegen.any_table(rng)
